@@ -156,9 +156,10 @@ class TLCResult:
 
 
 def tlc(module, cfg=None, *, workers=1, simulate=None, depth=None, env=None, timeout=1800,
-        coverage=False, seed_=None, tag=None, heap="4g", deque=False, extra=()):
+        coverage=False, seed_=None, tag=None, heap="4g", deque=False, extra=(), specdir=None):
     """Run TLC on spec/<module>.tla with spec/<cfg>.cfg from the spec directory."""
     cfg = cfg or module
+    SPEC = Path(specdir) if specdir else globals()["SPEC"]
     meta = fresh("tlc-meta", tag or ("%s-%s-%d" % (module, cfg, os.getpid())))
     jopts = ["-XX:+UseParallelGC", "-Xmx" + heap, "-Xss64m"]
     if deque:
